@@ -32,7 +32,7 @@ func init() {
 			"go/format is the reference for the edited text; generated layouts or edited texts on which gofmt is not idempotent are inconclusive",
 			"'uniform separators' is decided from the text and gofmt only (edge blank lines must survive gofmt)",
 		},
-		Required: map[string]int{"list_kinds": 10, "edit_kinds": 7, "separators": 2},
+		Required: map[string]int{"list_kinds": 12, "edit_kinds": 7, "separators": 2},
 	})
 }
 
@@ -147,6 +147,44 @@ var c02Kinds = []c02Kind{
 				return []string{t + ", x" + t + " = 1, 2"}
 			case 3:
 				return []string{t + " int = 1"}
+			}
+			return []string{t + " = 1"}
+		},
+		slice: func(f *dst.File, l string) reflect.Value { return sv(&c02GenDecl(f, "first"+l).Specs) }},
+	{name: "type-specs", head: "package p\n\n", skip: 1,
+		open:  func(l string) string { return "type (\n\tfirst" + l + " int" },
+		close: func(l string) string { return ")" },
+		join:  "\n",
+		elem: func(t string, inner bool, v int) []string {
+			if inner {
+				return []string{t + " /*I " + t + "*/ int"}
+			}
+			switch v % 5 {
+			case 1:
+				return []string{t + " = string"}
+			case 2:
+				return []string{t + " struct{}"}
+			case 3:
+				return []string{t + "[P any] []P"}
+			case 4:
+				return []string{t + " struct {", "\tf int", "}"}
+			}
+			return []string{t + " int"}
+		},
+		slice: func(f *dst.File, l string) reflect.Value { return sv(&c02GenDecl(f, "first"+l).Specs) }},
+	{name: "const-specs", head: "package p\n\n", skip: 1,
+		open:  func(l string) string { return "const (\n\tfirst" + l + " = iota" },
+		close: func(l string) string { return ")" },
+		join:  "\n",
+		elem: func(t string, inner bool, v int) []string {
+			if inner {
+				return []string{t + " = /*I " + t + "*/ 1"}
+			}
+			switch v % 3 {
+			case 1:
+				return []string{t}
+			case 2:
+				return []string{t + " int = 2"}
 			}
 			return []string{t + " = 1"}
 		},
